@@ -10,9 +10,9 @@ NOTE = {
  "C10": "Properness, axis, perpendicular turn, round trips (generic + half-turn), norm bound, Jacobian = derivative (all 27 entries, Coquelicot), Jacobian composition and dispatch are proved; PARTIAL: the derivative at |r| < eps w.r.t. the exact map and the 2.5e-5 snapping tolerance near 0 and pi are sampled by the oracle only; SVD/acos/cos/sin are trusted through stated contracts.",
  "C09": "Refinement of every listed operation (incl. the sort-based insertion and both index maps, for all sizes) and of every finite history to the list-of-points spec is proved; PARTIAL only in that immutability/aliasing (not a Gallina notion) is validated by the harness, not proved.",
  "C07": "PARTIAL: nearest/closest-point clauses proved for all inputs; sub-path clauses proved under explicit simplicity hypotheses (open polylines); one known finding (ret_t_values alone) pinned by the test-suite.",
- "C08": "PARTIAL: arc-length and subdivision clauses proved; total-length preservation and continuity are checked by the oracle only.",
+ "C08": "Arc-length (walk spec incl. f=0, f=1, Lipschitz continuity), subdivision (minimal parts, even spacing, indices, length preserved, closedness), bisection and segment partition clauses are all proved; one known finding (subdivide_segments on a zero-length segment gives NaN rows).",
  "C19": "Round trips, rounding error, success of rounded/serialize for every unit normal and every precision, and validator soundness are proved; the json text round trip and the jsonschema library are trusted.",
- "C17": "PARTIAL: tightness, accessors, planes, contains, extent proved for all inputs; percentile interpolation value proved for integer virtual index only; the 'few units of rounding' clause is a float clause sampled by the oracle.",
+ "C17": "Tightness, accessors, planes, contains, extent and percentile (linear interpolation for every q) proved for all inputs; PARTIAL only in that the 'few units of rounding at the maximum faces' clause is an IEEE-754 clause sampled by the oracle.",
 }
 checks = []
 for p in props:
